@@ -395,3 +395,33 @@ Definition tw_has_member (H : bytes -> bytes) (now : N) (s : tw_state) (member :
       end
   end.
 Definition tw_query_roots (s : tw_state) : list str := tw_roots s.
+
+(* ---------- specification vocabulary used by the C14 statements ---------- *)
+(* well-formed proof element: decodes to exactly L bytes *)
+Definition hex_ok (L : nat) (s : str) : bool :=
+  match hex_decode s with Some b => Nat.eqb (length b) L | None => false end.
+
+(* a history of calls; a rejected call changes nothing *)
+Fixpoint wl_run (h : list (N * addr * wl_msg)) (s : wl_state) : wl_state :=
+  match h with
+  | [] => s
+  | (now, sender, m) :: r =>
+      match wl_execute now sender m s with Ok s' => wl_run r s' | Err => wl_run r s end
+  end.
+
+Fixpoint tw_run (h : list (N * addr * tw_msg)) (s : tw_state) : tw_state :=
+  match h with
+  | [] => s
+  | (now, sender, m) :: r =>
+      match tw_execute now sender m s with Ok s' => tw_run r s' | Err => tw_run r s end
+  end.
+
+Definition stage_active (now : N) (s : stage) : bool := (st_start s <=? now) && (now <=? st_end s).
+
+(* the sender string starts with a character that is not a decimal digit *)
+Definition head_nondigit (s : str) : Prop :=
+  match s with c :: _ => is_digit c = false | [] => False end.
+
+(* a deliberately weak 2-byte "hash" for the non-vacuity examples of props/C14.v
+   (sum and length: permutations of a string collide) *)
+Definition toyH (x : bytes) : bytes := [fold_left N.add x 7 mod 256; N.of_nat (length x) mod 256].
